@@ -45,6 +45,10 @@ def canary_doc() -> tuple[dict, dict[str, dict]]:
         c("property name (allOf ref)", True): {"allOf": [{"$ref": "#/components/schemas/CanaryLeaf"}], "description": c("wrapper description")},
     }
     required = [k for i, k in enumerate(model_props) if i in (0, 2)]
+    # colliding siblings: `<slot>` next to `<slot>~` (the payload with everything but letters, digits and `_` removed):
+    # both sanitise to one Python name, which sends the generator into its raw-name fallback
+    # (`PythonIdentifier(..., skip_snake_case=True)`), or into a diagnostic
+    cs, cq = c("colliding property name"), c("colliding query parameter name")
     doc = {
         "openapi": "3.1.0",
         "info": {"title": c("info title"), "version": c("info version"), "description": c("info description")},
@@ -69,13 +73,21 @@ def canary_doc() -> tuple[dict, dict[str, dict]]:
                         "404": {"description": c("response description"), "content": {"application/json": {"schema": {"type": "object", "title": c("inline title"), "properties": {c("inline property name", True): {"type": "string"}}}}}},
                     },
                 }
-            }
+            },
+            "/collide": {
+                "get": {
+                    "operationId": "collideOp",
+                    "parameters": [{"name": cq, "in": "query", "schema": {"type": "string"}}, {"name": cq + "~", "in": "query", "schema": {"type": "string"}}],
+                    "responses": {"200": {"description": "d", "content": {"application/json": {"schema": {"$ref": "#/components/schemas/CanaryCollide"}}}}},
+                }
+            },
         },
         "components": {
             "schemas": {
                 "CanaryModel": {"type": "object", "title": c("model title"), "description": c("model description"), "example": c("model example"), "required": required, "properties": model_props},
                 "CanaryEnum": {"type": "string", "enum": [c("component enum value", True), c("component enum value", True)], "description": c("component enum description")},
                 "CanaryLit": {"type": "integer", "enum": [1, 2], "description": c("int enum description")},
+                "CanaryCollide": {"type": "object", "properties": {cs: {"type": "string"}, cs + "~": {"type": "string"}}},
                 "CanaryLeaf": {"type": "object", "properties": {c("leaf property name", True): {"type": "integer"}}},
             }
         },
@@ -83,16 +95,21 @@ def canary_doc() -> tuple[dict, dict[str, dict]]:
     return doc, slots
 
 
-def inject(doc: dict, sid: str, text: str) -> dict:
-    """Replace the canary `sid` by `text` everywhere it occurs (keys and values; `required` lists follow the keys)."""
+def inject(doc: dict, sid: str, text: str, text_plain: str | None = None) -> dict:
+    """Replace the canary `sid` by `text` everywhere it occurs (keys and values; `required` lists follow the keys);
+    the derived marker `sid~` is replaced by `text_plain` (the same text reduced to letters, digits and `_`)."""
+    plain = text if text_plain is None else text_plain
+
+    def sub(x: str) -> str:
+        return x.replace(sid + "~", plain).replace(sid, text)
 
     def walk(node: Any) -> Any:
         if isinstance(node, dict):
-            return {(k.replace(sid, text) if isinstance(k, str) else k): walk(v) for k, v in node.items()}
+            return {(sub(k) if isinstance(k, str) else k): walk(v) for k, v in node.items()}
         if isinstance(node, list):
             return [walk(v) for v in node]
         if isinstance(node, str):
-            return node.replace(sid, text)
+            return sub(node)
         return node
 
     return walk(copy.deepcopy(doc))
@@ -186,7 +203,7 @@ def run_injection(sid: str, payload: str, meta: str = "none", base: tuple | None
 
     doc, slots = base or canary_doc()
     text = sid + payload + MARK
-    bad = inject(doc, sid, text)
+    bad = inject(doc, sid, text, sid + "".join(ch for ch in payload if ch.isalnum() or ch == "_") + MARK)
     root = gen.scratch("verif-inj-")
     info: dict = {"slot": sid, "kind": slots[sid]["kind"], "payload": payload, "meta": meta}
     try:
